@@ -437,11 +437,17 @@ Definition candidates (g : graph) : list label :=
   let ids := seq 0 (g_n g) in
   [LForward; LInitRequest; LInitDone] ++
   flat_map (fun t =>
-    [LParseActivate t] ++ map (LAddTarget t) ids ++ [LParseFail t; LParseOk t; LSemiDone t;
+    [LParseActivate t] ++ map (LAddTarget t) ids ++ [LParseFail t; LSemiDone t;
      LAsyncQueueDep t; LAsyncBeginResolve t] ++ map (LAsyncResolveDep t) (g_deps g t) ++ [LAsyncBeginWait t] ++
     map (LWaitDep t) (g_deps g t) ++ [LActivatePending t; LAsyncDone t; LFinishBuild t; LTaskDone t]) ids.
 
-Definition claims (g : graph) : list label := map LParseClaim (seq 0 (g_n g)).
+(* tried only when nothing else is possible: first the end of a parse, then a claim - packages in which an undeclared
+   label is looked for (and not marked late) as late as possible *)
+Definition parse_oks (g : graph) : list label := map LParseOk (seq 0 (g_n g)).
+Definition claims (g : graph) (late : list nat) : list label :=
+  let ids := seq 0 (g_n g) in
+  let held := map (g_pkg g) (filter (fun l => negb (g_decl g l) && negb (mem l late)) ids) in
+  map LParseClaim (filter (fun l => negb (mem (g_pkg g l) held)) ids ++ filter (fun l => mem (g_pkg g l) held) ids).
 
 (* one pass over the candidates, taking every eager step that is enabled when its turn comes *)
 Fixpoint pass (g : graph) (hints late : list nat) (cs : list label) (s : state) (acc : list label) (n : nat) : state * list label * nat :=
@@ -456,8 +462,8 @@ Fixpoint saturate (g : graph) (hints late : list nat) (fuel : nat) (s : state) (
       match pass g hints late (candidates g) s acc 0 with
       | (s', acc', S _) => saturate g hints late f (normalize g s') acc'
       | (s', acc', O) =>
-          (* nothing else to do: let one parse task claim its package *)
-          match find (fun l => eager g hints late s' l && enabled g s' l) (claims g) with
+          (* nothing else to do: let one parse finish, or one parse task claim its package *)
+          match find (fun l => eager g hints late s' l && enabled g s' l) (parse_oks g ++ claims g late) with
           | Some l => saturate g hints late f (normalize g (apply g s' l)) (l :: acc')
           | None => (s', acc')
           end
@@ -501,7 +507,7 @@ Definition labels_for (g : graph) (s : state) (e : ev) (r : list ev) : list labe
   | EvErr l c => sends_before_close g s r ++ [LTimerCycleCheck (rotate_to l (length c) c)]
   end.
 
-Definition fuel_of (g : graph) : nat := 6 * g_n g + 8.
+Definition fuel_of (g : graph) : nat := 10 * g_n g + 20.
 
 Fixpoint complete (g : graph) (hints late : list nat) (s : state) (acc : list label) (es : list ev) : option (state * list label) :=
   match es with
